@@ -595,7 +595,7 @@ impl Check for C05 {
     }
     fn strategy(&self, tier: Tier) -> BoxedStrategy<Case> {
         let mut lim = Limits::small();
-        lim.max_input_len = tier.pick(160, 1200);
+        lim.max_input_len = tier.pick(160, 400);
         case_strategy(lim)
     }
     fn num_cases(&self, tier: Tier) -> u64 {
